@@ -361,6 +361,99 @@ fn generated(cfg: &RunCfg) -> Outcome {
     }
 }
 
+/// Several messages through ONE buffer: every head smaller than the buffer must parse
+/// exactly as it does alone in a fresh buffer, whatever was buffered before it.
+fn sequence_case<const N: usize>(cfg: &RunCfg) -> Outcome {
+    use futures_lite::AsyncReadExt;
+    use servlin::internal::read_http_body_to_vec;
+    use servlin::RequestBody;
+    let k = 2 + gen::below(if N <= 256 { 30 } else { 14 }) as usize;
+    let mut msgs: Vec<(Vec<u8>, Vec<u8>)> = Vec::new();
+    let mut stream = Vec::new();
+    for i in 0..k {
+        let body_len = if gen::ratio(1, 2) { 0 } else { gen::below(if gen::ratio(1, 6) { 3 * N as u32 } else { 40 }) as usize };
+        let pad = gen::below((N as u32).saturating_sub(90).max(1)) as usize;
+        let mut head = format!("POST /s{i} HTTP/1.1\r\n").into_bytes();
+        if pad > 0 {
+            head.extend_from_slice(format!("x-pad: {}\r\n", "p".repeat(pad)).as_bytes());
+        }
+        if body_len > 0 {
+            head.extend_from_slice(format!("content-length: {body_len}\r\n").as_bytes());
+        } else {
+            head.extend_from_slice(b"content-length: 0\r\n");
+        }
+        head.extend_from_slice(b"\r\n");
+        if head.len() > N {
+            head = format!("POST /s{i} HTTP/1.1\r\ncontent-length: 0\r\n\r\n").into_bytes();
+            msgs.push((head.clone(), Vec::new()));
+            stream.extend_from_slice(&head);
+            continue;
+        }
+        let body = sim_core::tape::content(i as u32, body_len);
+        stream.extend_from_slice(&head);
+        stream.extend_from_slice(&body);
+        msgs.push((head, body));
+    }
+    // reference: each head alone in a fresh buffer
+    let mut alone = Vec::new();
+    for (h, _) in &msgs {
+        match observe::<N>(h, h.len(), StreamEnd::Eof, Pieces::Whole, 0, true) {
+            Ok(o) => alone.push(o.result),
+            Err(o) => return o,
+        }
+    }
+    let mut buf: FixedBuf<N> = FixedBuf::new();
+    let mut rd = ScriptReader::new(stream.clone(), match gen::below(4) {
+        0 => Pieces::Whole,
+        1 => Pieces::Random(if N <= 256 { 7 } else { 300 }),
+        2 => Pieces::Random(N / 3 + 1),
+        _ => Pieces::Random(2 * N),
+    });
+    rd.pending_64 = gen::pick(&[0u32, 0, 8]);
+    for (i, (h, body)) in msgs.iter().enumerate() {
+        let cap = (stream.len() + N) as u64 * 4 + 64;
+        let r = match drive(read_http_request(addr(), &mut buf, &mut rd), cap) {
+            Drive::Done(r, _) => r,
+            Drive::Stalled(p) | Drive::Cap(p) => return Outcome::fail("C01.terminates", format!("message {i} of a sequence: no result after {p} polls")),
+            Drive::Panicked(m) => return Outcome::fail("C01.no_panic", m),
+        };
+        let got = match &r {
+            Ok(req) => render_req(req),
+            Err(e) => format!("Err {e:?}"),
+        };
+        if got != alone[i] {
+            return Outcome::fail(
+                "C01.same_outcome_in_sequence",
+                format!("message {i} of {k} (head {} bytes, buffer {N}) parses as {} after earlier traffic, but as {} alone", h.len(), got.chars().take(120).collect::<String>(), alone[i].chars().take(120).collect::<String>()),
+            );
+        }
+        if let Ok(req) = r {
+            if let RequestBody::PendingKnown(n) = req.body {
+                let b = match drive(read_http_body_to_vec((&mut buf).chain(&mut rd), n as usize), cap * 4) {
+                    Drive::Done(b, _) => b,
+                    _ => return Outcome::fail("C01.terminates", format!("body of message {i} never completes")),
+                };
+                match b {
+                    Ok(RequestBody::Vec(v)) if &v == body => {}
+                    other => return Outcome::fail("C01.leftover_intact", format!("body of message {i} differs from the bytes sent: {other:?}")),
+                }
+            }
+        }
+    }
+    if stream.len() > N {
+        gen::count("probe.sequence_longer_than_buffer");
+    }
+    Outcome { nontrivial: true, case_hash: sim_core::tape::fnv1a(&stream), sample: if cfg.index < 1 { Some(json!({"messages": k, "stream_bytes": stream.len(), "buffer": N})) } else { None }, ..Default::default() }
+}
+
+fn sequence(cfg: &RunCfg) -> Outcome {
+    if gen::ratio(1, 2) {
+        sequence_case::<256>(cfg)
+    } else {
+        sequence_case::<8192>(cfg)
+    }
+}
+
 const ALPHABET: [&[u8]; 8] = [b"M", b" ", b"/", b":", b"\r", b"\n", b"\x80", b"HTTP/1.1"];
 
 /// Every string of up to 6 symbols over the reduced alphabet, with and without the head
@@ -469,13 +562,14 @@ pub fn spec() -> PropertySpec {
     PropertySpec {
         id: "C01",
         level: "exploration",
-        rule: "read_http_head / read_http_request over a scripted AsyncRead with FixedBuf<64|256|8192>. Inputs: heads derived from the RFC 7230 grammar (all tchar, obs-text, OWS variants, bare LF), 0-3 byte-level mutations, over-long heads around the buffer size, 0-64 leftover bytes; corpus stage: EVERY string of <= 6 symbols over {M, SP, /, :, CR, LF, 0x80, HTTP/1.1} (299,593 strings, with and without terminator). Schedules: every single split point (inputs <= 24 bytes; all double splits too in the thorough tier), 1-byte reads and tape-chosen partitions otherwise, spurious Pending; end of stream (EOF or read error) after every prefix for short inputs, at drawn offsets otherwise. Oracle: termination within a poll cap, no panic, documented error class, position-of-first-CRLFCRLF consumption model (nothing past the head consumed, leftover intact, HeadTooLong/Truncated/Disconnected classes), identical outcome and leftover under every partition. Connection level: same bytes through the real connection task in the simulated server, FIN or RST at an offset: response-or-EOF, no task panic, slot returned. distinct = hash of input bytes; probe.executions counts individual reader executions.",
+        rule: "read_http_head / read_http_request over a scripted AsyncRead with FixedBuf<64|256|8192>. Inputs: heads derived from the RFC 7230 grammar (all tchar, obs-text, OWS variants, bare LF), 0-3 byte-level mutations, over-long heads around the buffer size, 0-64 leftover bytes; corpus stage: EVERY string of <= 6 symbols over {M, SP, /, :, CR, LF, 0x80, HTTP/1.1} (299,593 strings, with and without terminator). Schedules: every single split point (inputs <= 24 bytes; all double splits too in the thorough tier), 1-byte reads and tape-chosen partitions otherwise, spurious Pending; end of stream (EOF or read error) after every prefix for short inputs, at drawn offsets otherwise. Oracle: termination within a poll cap, no panic, documented error class, position-of-first-CRLFCRLF consumption model (nothing past the head consumed, leftover intact, HeadTooLong/Truncated/Disconnected classes), identical outcome and leftover under every partition. Sequence stage: 2-32 messages with padded heads (each smaller than the buffer) and bodies through ONE buffer: each must parse exactly as it does alone in a fresh buffer. Connection level: same bytes through the real connection task in the simulated server, FIN or RST at an offset: response-or-EOF, no task panic, slot returned. distinct = hash of input bytes; probe.executions counts individual reader executions.",
         scenarios: vec![
-            Scenario { name: "c01.generated", property: "C01", func: generated, runs_quick: 120_000, runs_thorough: 4_000_000, doc: "grammar + mutation" },
+            Scenario { name: "c01.generated", property: "C01", func: generated, runs_quick: 400_000, runs_thorough: 8_000_000, doc: "grammar + mutation" },
             Scenario { name: "c01.corpus", property: "C01", func: corpus, runs_quick: 299_593, runs_thorough: 299_593, doc: "exhaustive reduced alphabet" },
-            Scenario { name: "c01.conn", property: "C01", func: conn_level, runs_quick: 40_000, runs_thorough: 1_000_000, doc: "connection task level" },
+            Scenario { name: "c01.sequence", property: "C01", func: sequence, runs_quick: 60_000, runs_thorough: 2_000_000, doc: "several messages through one buffer" },
+            Scenario { name: "c01.conn", property: "C01", func: conn_level, runs_quick: 100_000, runs_thorough: 3_000_000, doc: "connection task level" },
         ],
-        required_probes: vec!["probe.generated_case", "fault.eof_at_offset", "fault.read_error_at_offset", "fault.client_rst"],
+        required_probes: vec!["probe.generated_case", "fault.eof_at_offset", "fault.read_error_at_offset", "fault.client_rst", "probe.sequence_longer_than_buffer"],
         components: components_stream(),
         assumptions: vec!["FixedBuf is trusted", "heads longer than the buffer + 64 bytes of slack are not generated"],
     }
